@@ -15,7 +15,7 @@ from ..lab import BULK, BULK_MD5, CONTENTS, LFS, MD5, hi, make_odb, put_raw
 from ..world import World, digest_obj, objects_only, store_snapshot, write_tree
 
 TREES = {
-    "Ta": {"a": "x", "s/b": "y", "s/t/c": "z"},
+    "Ta": {"a": "x", "s/b": "y", "s/t/c": "z", "s/t/e0": "e"},   # (the deepest directory also lists an empty file)
     "Tb": {"a": "w", "b": "w", "e": "e"},
     "Tc": {"m": "v", "n/o": "crlf"},
 }
